@@ -61,3 +61,18 @@ Proof.
   destruct (prop_get (str "code") ps) as [[x| |code| | | |]|] eqn:E; try reflexivity.
   exfalso. exact (H ps rest code eq_refl E).
 Qed.
+
+(* an _error answer never advances the workflow: whatever transaction it names (outstanding connect, outstanding createStream, none),
+   state, active stream, application name and serializer stay as they are; at most the named transaction is consumed *)
+Lemma error_effect c tr obj args c' r :
+  ch_error c tr obj args = (c', r) ->
+  cl_state c' = cl_state c /\ cl_stream c' = cl_stream c /\ cl_app c' = cl_app c /\ cl_ser c' = cl_ser c /\
+  cl_de c' = cl_de c /\ cl_ack c' = cl_ack c /\ cl_next_tr c' = cl_next_tr c /\
+  (forall k, k <> f64_to_u32 tr -> lookup k (cl_trs c') = lookup k (cl_trs c)).
+Proof.
+  unfold ch_error, take_transaction. intros H.
+  destruct (lookup (f64_to_u32 tr) (cl_trs c)) as [[app|p]|] eqn:El.
+  - injection H as <- _. cbn. repeat split; try reflexivity. intros k Hk. apply lookup_remove_other. exact Hk.
+  - injection H as <- _. cbn. repeat split; try reflexivity. intros k Hk. apply lookup_remove_other. exact Hk.
+  - injection H as <- _. repeat split; reflexivity.
+Qed.
